@@ -99,6 +99,20 @@ func (e *Engine) intrinsic(fn *ssa.Function, args []Val) (Val, bool) {
 	case "vAssert":
 		e.doAssert(args[0].(Bool), e.argStr(args[1], name))
 		return nil, true
+	case "vBound":
+		// a bound of the harness itself (not part of the property): if it can be exceeded the run is
+		// BOUND-EXCEEDED (machinery problem), never a violation
+		c := args[0].(Bool)
+		if !c.sym() {
+			if !c.C {
+				panic(boundExceeded{"harness bound: " + e.argStr(args[1], name)})
+			}
+			return nil, true
+		}
+		if e.sol.checkWith("(not "+c.T+")") != "unsat" {
+			panic(boundExceeded{"harness bound: " + e.argStr(args[1], name)})
+		}
+		return nil, true
 	case "vFail":
 		e.doAssert(Bool{}, e.argStr(args[0], name))
 		return nil, true
